@@ -165,7 +165,7 @@ HOSTILE = {
     "fold": ["ſ", "K", "ı", "İ"],
     "brackets": ["(", ")", "[", "]", "((", "))", "[(", ")]"],
     "underscore": ["_", "___", "__"],
-    "ws": ["\n", "\t", "\n\n", "  ", " \n ", "\t\t"],
+    "ws": ["\n", "\t", "\n\n", "  ", " \n ", "\t\t", "\r\n", "\r\n\r\n"],
     "tags": ["<i>", "</i>", "&amp;", "<b>", "</em>"],
     "dash": ["-", "—", "--"],
     "longnum": ["9" * 21, "1" * 400, "0" * 50, "7" * 4400],   # 4400 > CPython's 4300-digit int() limit
@@ -537,7 +537,7 @@ def mutate(s, rng, k=None, classes=None, rec=None):
 def dense_doc(rng, hostile=0.5, rec=None, classes=None, maxfrag=8):
     del _recent[:]
     parts = [frag(rng) for _ in range(rng.randint(1, maxfrag))]
-    seps = [rng.choice([" ", ". ", "; ", ", ", " ", "\n", " (", ") ", "\n\n", " Id. "]) for _ in parts]
+    seps = [rng.choice([" ", ". ", "; ", ", ", " ", "\n", " (", ") ", "\n\n", " Id. ", "\r\n", ".\r\n"]) for _ in parts]
     if rng.random() < 0.25:
         seps[-1] = ""            # the document ends with the last character of a citation
     s = "".join(p + q for p, q in zip(parts, seps))
